@@ -101,6 +101,8 @@ IOCalls ==
   \cup {[C("IOIadd") EXCEPT !.k = k, !.g = g, !.vs = <<v>>] : k \in KK, g \in G, v \in PV}
   \cup {[C("IOReverse") EXCEPT !.k = k, !.g = g] : k \in KK, g \in G}
 
+Nameless == {x \in V : st.vName[x] = NoName}     \* values that would take the key as their name
+
 InitCalls ==
      {[C("InitSet") EXCEPT !.g = g, !.name = nm, !.v = v] : g \in G, nm \in NamePool \cup {""}, v \in V}
   \cup {[C("InitIor") EXCEPT !.g = g, !.name = nm, !.v = v] : g \in G, nm \in NamePool, v \in PV}
@@ -113,6 +115,9 @@ InitCalls ==
   \cup {[C("SetName") EXCEPT !.v = v, !.name = nm] : v \in V, nm \in Names0}
   \cup {[C("InitSetdefault") EXCEPT !.g = g, !.name = nm, !.v = v] : g \in G, nm \in NamePool, v \in PV}
   \cup {[C("InitUpdate2") EXCEPT !.g = g, !.v = v, !.w = w] : g \in G, v \in PV, w \in PV}
+  \* explicit keys (the second key is carried in field k): the same or another value under a second key
+  \cup {[C("InitUpdateKeys") EXCEPT !.g = g, !.name = k1, !.v = v, !.k = k2, !.w = w] :
+            g \in G, k1 \in NamePool, k2 \in NamePool, v \in PV \cup Nameless, w \in PV \cup Nameless}
 
 NodeCalls ==
      {[C("ReplaceInput") EXCEPT !.n = n, !.i = i, !.v = v] : n \in N, i \in {0, 1, 2}, v \in PV \cup {0}}
